@@ -66,6 +66,7 @@ func RunCheck(p *Prog, o RunOpt) *CheckRun {
 	cr.SnapBefore = Snapshot(".")
 
 	body := func() {
+		w.initChans()
 		func() {
 			defer func() {
 				if r := recover(); r != nil {
@@ -115,6 +116,7 @@ func RunCheck(p *Prog, o RunOpt) *CheckRun {
 
 func (cr *CheckRun) finishWaiters(wait func()) {
 	w := cr.W
+	w.verifyPending()
 	wait()
 	woken := 0
 	for {
